@@ -6,7 +6,9 @@ from .strops import StrOps
 import os
 TRACE = os.environ.get('SA_TRACE')
 TRACEVAR = os.environ.get('SA_TRACEVAR', 'number')
-MAXENV = 48
+# disjuncts kept per program point / per call result before environments are joined (thorough tier: four times as many)
+MAXENV = 192 if os.environ.get('SA_THOROUGH') else 48
+MAXPAIRS = 96 if os.environ.get('SA_THOROUGH') else 24
 VE_CLASSES = {'ValidationError': None, 'InvalidFormat': 'ValidationError', 'InvalidChecksum': 'ValidationError',
               'InvalidLength': 'InvalidFormat', 'InvalidComponent': 'ValidationError'}
 PY_HIER = {'ValueError': 'Exception', 'IndexError': 'LookupError', 'KeyError': 'LookupError', 'LookupError': 'Exception',
@@ -302,7 +304,7 @@ class Exec:
         return [(env, v)] if not env.dead else []
 
     def cap_pairs(self, outs):
-        if len(outs) <= 24:
+        if len(outs) <= MAXPAIRS:
             return outs
         acc, val = outs[0]
         for e, v in outs[1:]:
